@@ -1190,6 +1190,15 @@ def canon_folds(t):
     if h == "floop" and t[1] == "for":
         d, it, body, rest = t[2], t[3], strip(t[4]), strip(t[5])
         elem = ("elem", d, it)
+        if _never_returns(body):
+            return t[5]          # no iteration returns: the loop falls through
+        vals = _const_range(it)
+        if vals is not None and len(vals) <= 4:
+            # a loop over a constant range: the iterations one after the other
+            out = t[5]
+            for v in reversed(vals):
+                out = _replace_next(subst(t[4], {elem: const(v)}), out)
+            return rewrite(out, canon_folds)
         cid = ("#fold", d, repr(it)[:40])
         ce = ("citer", cid, 0, it)
         if head(body) == "ite" and strip(body[3]) == ("next",) and is_const(strip(body[2])) and is_const(rest) and isinstance(strip(body[2])[2], bool) and isinstance(rest[2], bool) \
@@ -1222,6 +1231,53 @@ def canon_folds(t):
             if step is not None and not any(y == acc for y in walk(f[3])):
                 return canon_folds(("fold", "for", f[2], f[3], const(""), step, ()))
     return t
+
+
+def _never_returns(body):
+    """The body tree of a returning loop has no returning leaf (only 'next')."""
+    b = strip(body)
+    if b == ("next",):
+        return True
+    if head(b) == "ite":
+        return _never_returns(b[2]) and _never_returns(b[3])
+    if head(b) in ("floop",):
+        return _never_returns(b[4]) and _never_returns(b[5])
+    return False
+
+
+def _replace_next(body, cont):
+    """Replace the 'continue with the next iteration' leaves of a loop body by ``cont`` (nested loops: their fall-through only)."""
+    b = strip(body)
+    if b == ("next",):
+        return cont
+    if head(b) == "ite":
+        return ("ite", b[1], _replace_next(b[2], cont), _replace_next(b[3], cont))
+    if head(b) in ("floop", "bfloop"):
+        return b[:5] + (_replace_next(b[5], cont),) + b[6:]
+    return body
+
+
+def _const_int(t):
+    t = strip(t)
+    if is_const(t) and isinstance(t[2], int) and not isinstance(t[2], bool):
+        return t[2]
+    if head(t) == "bin" and t[1] in ("+", "-"):
+        a, b = _const_int(t[2]), _const_int(t[3])
+        if a is not None and b is not None:
+            return a + b if t[1] == "+" else a - b
+    return None
+
+
+def _const_range(it):
+    """Values of range(...) with constant integer arguments (at most 64), else None."""
+    it = strip(it)
+    if head(it) == "call" and strip(it[1]) == ("glob", "builtins.range") and not it[3] and 1 <= len(it[2]) <= 3:
+        args = [_const_int(a) for a in it[2]]
+        if None in args or (len(args) == 3 and args[2] == 0):
+            return None
+        r = range(*args)
+        return list(r) if len(r) <= 64 else None
+    return None
 
 
 def _call_arg(c, i, name):
